@@ -237,5 +237,5 @@ def run(ck, facts, tier):
         ck.check(r5, "index_left[left_count=%s]" % lcname, gotset in (want_a, want_b), "index_left is not the bisection recurrence (a changed shortcut, split or branch would select a wrong interval for some list length)",
                  where, detail="only in code: %s" % [(sorted(map(str, c))[:3], str(v)[:160]) for c, v in list(gotset - want_a)[:3]], sample="5 paths: abort / count / shortcut / left half / right half")
     ck.not_decided += ["index_left is decided as conformance to the bisection recurrence; that the recurrence meets the interval specification is an induction argument stated in the rule, not mechanised",
-                       "'lies between the nodes' is a numerical consequence of R11.1, not separately evaluated", "a deserialised CurveDF is not re-sorted (stored curves were sorted when saved)"]
+                       "'lies between the nodes' is a numerical consequence of R11.1, not separately evaluated", "curves with fewer than two nodes (index_left aborts on a one-element list; the statement quantifies over node counts >= 2)"]
     ck.trusted += ["lib/cel.py"]
